@@ -40,7 +40,8 @@ def cur():
 
 
 class Explorer:
-    def __init__(self, timeout_s=60.0, max_paths=200000, solver_timeout_ms=20000):
+    def __init__(self, timeout_s=60.0, max_paths=200000, solver_timeout_ms=20000, logic=None):
+        self.logic = logic
         self.timeout_s = timeout_s
         self.max_paths = max_paths
         self.solver_timeout_ms = solver_timeout_ms
@@ -58,13 +59,23 @@ class Explorer:
     def _check(self, *extra):
         self.queries += 1
         t = time.time()
-        if extra:
-            self.solver.push()
-            self.solver.add(*extra)
-        r = self.solver.check()
-        self.last_model = self.solver.model() if r == z3.sat else None
-        if extra:
-            self.solver.pop()
+        if self.logic:
+            # one-shot solver of the given logic (tactic pipeline; push/pop would switch z3 to its incremental core,
+            # which is far slower on floating-point queries)
+            one = z3.SolverFor(self.logic)
+            one.set("timeout", self.solver_timeout_ms)
+            one.add(*self.solver.assertions())
+            one.add(*extra)
+            r = one.check()
+            self.last_model = one.model() if r == z3.sat else None
+        else:
+            if extra:
+                self.solver.push()
+                self.solver.add(*extra)
+            r = self.solver.check()
+            self.last_model = self.solver.model() if r == z3.sat else None
+            if extra:
+                self.solver.pop()
         self.solver_s += time.time() - t
         if r == z3.sat:
             self.sat += 1
@@ -194,7 +205,7 @@ class Explorer:
                 self.prefix, self.trace, self.flipped = prefix, [], bool(prefix)
                 self._fresh = 0
                 self.model = None
-                self.solver = z3.Solver()
+                self.solver = z3.SolverFor(self.logic) if self.logic else z3.Solver()
                 self.solver.set("timeout", self.solver_timeout_ms)
                 self.solver.add(*self.base)
                 try:
